@@ -126,6 +126,7 @@ pub fn parse_many_and_resolve_includes<S>(
             None,
             fileserver,
             file.borrow(),
+            false,
             &mut Vec::new(),
             &mut once_filenames)?;
 
@@ -141,6 +142,7 @@ pub fn parse_and_resolve_includes<S>(
     span: Option<diagn::Span>,
     fileserver: &mut dyn util::FileServer,
     root_filename: S,
+    in_conditional: bool,
     seen_filenames: &mut Vec<String>,
     once_filenames: &mut std::collections::HashSet<String>)
     -> Result<AstTopLevel, ()>
@@ -173,6 +175,17 @@ pub fn parse_and_resolve_includes<S>(
     // Check presence of an #once directive
     if root_ast.nodes.iter().any(|n| matches!(n, AstAny::DirectiveOnce(_)))
     {
+        // Whether an `#include` inside an `#if` block takes effect is
+        // only known later, so it cannot count as the one inclusion
+        if in_conditional
+        {
+            report.error_span(
+                "file with `#once` included from inside an `#if` block",
+                span.unwrap());
+
+            return Err(());
+        }
+
         once_filenames.insert(root_filename.borrow().to_owned());
     }
 
@@ -183,6 +196,7 @@ pub fn parse_and_resolve_includes<S>(
         fileserver,
         root_filename.borrow(),
         &mut root_ast.nodes,
+        in_conditional,
         seen_filenames,
         once_filenames)?;
 
@@ -195,6 +209,7 @@ fn resolve_includes_in_nodes(
     fileserver: &mut dyn util::FileServer,
     root_filename: &str,
     nodes: &mut Vec<AstAny>,
+    in_conditional: bool,
     seen_filenames: &mut Vec<String>,
     once_filenames: &mut std::collections::HashSet<String>)
     -> Result<(), ()>
@@ -210,6 +225,7 @@ fn resolve_includes_in_nodes(
                 fileserver,
                 root_filename,
                 &mut ast_if.true_arm.nodes,
+                true,
                 seen_filenames,
                 once_filenames)?;
 
@@ -220,6 +236,7 @@ fn resolve_includes_in_nodes(
                     fileserver,
                     root_filename,
                     &mut false_arm.nodes,
+                    true,
                     seen_filenames,
                     once_filenames)?;
             }
@@ -256,6 +273,7 @@ fn resolve_includes_in_nodes(
                 Some(ast_include.filename_span),
                 fileserver,
                 included_filename.as_ref(),
+                in_conditional,
                 seen_filenames,
                 once_filenames)?;
 
